@@ -49,7 +49,10 @@ Verdict(e) ==
   LET exp == ParseDoc(e.doc, e.allow)
       asb == ParseDocAsBuilt(e.doc, e.allow)
       md == ModelDiff(exp, e.result)
-  IN IF e.want \in {"model", "links"} /\ ~WellFormed(e.doc) THEN "generator:not-well-formed"
+  IN \* real documents (the repository's own): no abstract document to compare with; the links the database shows must be
+     \* consistent with the content it shows
+     IF e.want = "selflinks" THEN (IF e.result.kind # "db" THEN "" ELSE LinkDiff(e.result, e.links))
+     ELSE IF e.want \in {"model", "links"} /\ ~WellFormed(e.doc) THEN "generator:not-well-formed"
      ELSE IF e.want = "inert"
           THEN \* C14: extra comments anywhere comments are allowed change nothing but comment attributes
                LET idf == ModelDiff(MaskComments(exp), MaskComments(e.result)) IN
